@@ -106,14 +106,14 @@ class SimDisk:
         if content:
             os.pwrite(self.fd, content, 0)
 
-    def writer(self, mode="raw"):
+    def writer(self, mode="raw", bufsize=None):
         raw = io.FileIO(os.dup(self.fd), "r+", closefd=True)
         if mode == "raw":
             f = raw
         elif mode == "bufw":
-            f = io.BufferedWriter(raw, buffer_size=64)
+            f = io.BufferedWriter(raw, buffer_size=bufsize or 64)
         elif mode == "bufrw":
-            f = io.BufferedRandom(raw, buffer_size=4096)
+            f = io.BufferedRandom(raw, buffer_size=bufsize or 4096)
         else:
             raise ValueError(mode)
         return SimFile(self, f)
